@@ -319,6 +319,32 @@ def delivery_search(ctx, protos, hits):
                 break
         if done:
             continue
+        # codes of several frames: [all frames of A, all of B, all of A, all but the last frame of B, (deliver), last frame of B]
+        cA0, e = engine.fresh_encode(p, base, repeat_count=0)
+        if cA0 is not None and len(cA0.normalized_rlc) >= 2 and variants:
+            cB0, e = engine.fresh_encode(p, variants[0][1], repeat_count=0)
+            if cB0 is not None and len(cB0.normalized_rlc) == len(cA0.normalized_rlc):
+                FA, FB = [list(f) for f in cA0.normalized_rlc], [list(f) for f in cB0.normalized_rlc]
+                outs = []
+                for deliver_first in (False, True):
+                    with engine.class_guard(p['cls']):
+                        vlib.drain_workers()
+                        inst = p['cls']()
+                        for f in FA + FB + FA + FB[:-1]:
+                            outcome(p, inst, f)
+                        if deliver_first:
+                            deliver()
+                        o1 = outcome(p, inst, FB[-1])
+                        vlib.drain_workers()
+                    outs.append(o1)
+                ctx.count_eval(key=(name, 'delivery-multi-frame'))
+                if outs[0] != outs[1]:
+                    hits[name] = True
+                    ctx.report(name, 'decode result depends on whether release notifications have been delivered',
+                               dict(parameter='multi-frame', sig='last frame of a code of several frames'),
+                               dict(protocol=name, keyA=base, keyB=variants[0][1],
+                                    history=['all frames of A', 'all of B', 'all of A', 'all but the last frame of B', '(deliver)', 'last frame of B'],
+                                    pending=list(map(str, outs[0])), delivered=list(map(str, outs[1]))))
         # the same question after a REJECTED frame: [full A, rejected frame, (deliver), repeat A, (deliver), full A]
         cA1, e = engine.fresh_encode(p, base, repeat_count=1)
         if cA1 is None or len(cA1.normalized_rlc) < 2:
